@@ -113,6 +113,11 @@ def deep_eq(e, a, b):
         return conj(e, [deep_eq(e, x, y) for x, y in zip(a.items, b.items)])
     if isinstance(a, BoxV) and isinstance(b, BoxV):
         return deep_eq(e, a.inner, b.inner)
+    if isinstance(a, SetV) and isinstance(b, SetV) and a.kind == b.kind == 'btree':
+        # ordered sets: equal iff equal as sorted sequences
+        if len(a.items) != len(b.items):
+            return False
+        return conj(e, [deep_eq(e, x, y) for x, y in zip(a.items, b.items)])
     if isinstance(a, Opaque) and isinstance(b, Opaque):
         if a.name == b.name:
             return True
@@ -1725,3 +1730,102 @@ class NameStr(Str):
 
     def render(self, model):
         return ''.join(NAME_ALPHABET[model.eval(c, model_completion=True).as_long()] for c in self.chars)
+
+
+@contract(r'^<impl str>::chars$')
+def str_chars(e, args, fr, m):
+    s_ = e.load(args[0])
+    if s_.concrete:
+        return IterV([Int(ord(c), 'char') for c in s_.v], 0, 'val')
+    return Adt('Chars', None, (s_,))
+
+
+@contract(r"^<Chars<'_> as Iterator>::count$")
+def chars_count(e, args, fr, m):
+    it = e.force(args[0])
+    if isinstance(it, IterV):
+        return Int(len(it.items) - it.pos, 'usize')
+    s_ = it.fields[0]
+    if getattr(s_, 'char_len', None) is not None:
+        return Int(s_.char_len, 'usize')
+    raise Unsupported('number of characters of a symbolic string')
+
+
+@contract(r'^<impl \[.*\]>::contains$|^Vec::<.*>::contains$')
+def slice_contains(e, args, fr, m):
+    v = e.load(args[0])
+    x = e.load(args[1])
+    return disj([deep_eq(e, y, x) for y in v.items])
+
+
+@contract(r'^Option::<.*>::filter::<.*>$')
+def opt_filter(e, args, fr, m):
+    v = e.force(args[0])
+    if v.variant != 'Some':
+        return NONE
+    keep = call_closure(e, fr, args[1], [ValRef(v.fields[0])])
+    return v if e.branch(keep) else NONE
+
+
+@contract(r'^Option::<.*>::map::<.*>$')
+def opt_map(e, args, fr, m):
+    v = e.force(args[0])
+    if v.variant != 'Some':
+        return NONE
+    return some(call_closure(e, fr, args[1], [v.fields[0]]))
+
+
+@contract(r'^Option::<.*>::and_then::<.*>$')
+def opt_and_then(e, args, fr, m):
+    v = e.force(args[0])
+    if v.variant != 'Some':
+        return NONE
+    return call_closure(e, fr, args[1], [v.fields[0]])
+
+
+@contract(r'^Option::<.*>::unwrap_or_else::<.*>$')
+def opt_unwrap_or_else(e, args, fr, m):
+    v = e.force(args[0])
+    if v.variant == 'Some':
+        return v.fields[0]
+    return call_closure(e, fr, args[1], [])
+
+
+@contract(r'^Option::<.*>::unwrap_or_default$')
+def opt_unwrap_or_default(e, args, fr, m):
+    v = e.force(args[0])
+    if v.variant == 'Some':
+        return v.fields[0]
+    raise Unsupported('unwrap_or_default on None (default value of an unknown type)')
+
+
+@contract(r'^Option::<.*>::or$')
+def opt_or(e, args, fr, m):
+    v = e.force(args[0])
+    return v if v.variant == 'Some' else args[1]
+
+
+@contract(r'^HashMap::<.*>::values_mut$|^HashMap::<.*>::iter_mut$')
+def hashmap_values_mut(e, args, fr, m):
+    r = e.force(args[0])
+    mp = e.load(r)
+    while isinstance(r, (Ref, ValRef)):
+        inner = e.force(e.read_place(r.frame, (r.local, r.projs)) if isinstance(r, Ref) else r.v)
+        if isinstance(inner, (Ref, ValRef)):
+            r = inner
+        else:
+            break
+    if not isinstance(r, Ref):
+        raise Unsupported('values_mut on a map without a place')
+    refs = [Ref(r.frame, r.local, r.projs + (('mapvalue', i),)) for i in range(len(mp.pairs))]
+    return IterV(refs, 0, 'perm' if e.flags.get('symbolic_order') else 'val')
+
+
+@contract(r'^<(?:ValuesMut|Values|Keys|IterMut)<.*> as Iterator>::next$')
+def map_iter_next(e, args, fr, m):
+    return iter_next(e, args, fr, m)
+
+
+@contract(r'^<String as PartialEq<&?str>>::ne$|^<&?str as PartialEq<String>>::ne$')
+def string_ne(e, args, fr, m):
+    return e._bnot(deep_eq(e, args[0], args[1]))
